@@ -137,14 +137,24 @@ class _SimNet(fakezmq.Net):
             m = serde.des_message(bytes(frames[0]))
             co = current()
             self.sim.q_exec[host].setdefault(co.name if co else "?", []).append(m)
+            if co is not None and isinstance(m, DatasetPublished) and hasattr(self.sim, "on_worker_published"):
+                self.sim.on_worker_published(co, m.ds)
             return
         super().transmit(addr, frames, sender)
 
 
 class ClusterSim:
     def __init__(self, job, cluster: list[dict], chooser: Chooser, inject_failure_at: int | None = None,
-                 max_idle_rounds: int = 100, slow_data: bool = False):
+                 max_idle_rounds: int = 100, slow_data: bool = False, midtask: bool = False):
         _patch_once()
+        # midtask: a worker is pre-empted right after each publication it makes while a task runs (a generator's outputs become
+        # visible, are consumed, even purged, while the generator is still running); resuming it is one more schedulable step
+        self.midtask = midtask
+        self.allow_park = True
+        self.parked: set = set()
+        self.pending_pub: dict = {}
+        self.outputs_done: set[str] = set()
+        self._pub_by_task: dict[str, set] = {}
         self.slow_data = slow_data  # schedule bias: data-server commands (transfers, fetches) tend to stay pending
         self.job = job
         self.ch = chooser
@@ -227,6 +237,28 @@ class ClusterSim:
 
     def on_sequence_end(self, worker: WorkerId, seq) -> None:
         self.busy.pop(worker, None)
+        self.pending_pub.pop(worker, None)
+
+    def on_worker_published(self, co, ds: DatasetId) -> None:
+        """A worker coroutine has just sent the publication notice of `ds` to its executor."""
+        w = next((x for x in self.workers if repr(x) == co.name), None)
+        if w is None:
+            return
+        done = self._pub_by_task.setdefault(ds.task, set())
+        done.add(ds.output)
+        if ds.task in self.job.tasks and done >= set(self.job.tasks[ds.task].definition.output_schema.keys()):
+            self.outputs_done.add(ds.task)  # from here on the controller may take the task for finished (it infers that from the
+            # publication of the last output): its inputs are no longer needed, its worker counts as free
+        pp = self.pending_pub.get(w)
+        if pp is not None:
+            pp.discard(ds)
+            if not pp:
+                self.pending_pub.pop(w)
+                self.busy.pop(w, None)
+        if self.midtask and self.allow_park and w in self.executing:
+            self.parked.add(w)
+            self.trace.append(f"P:{w}:{ds}")
+            co.park()
 
     def on_round(self, state, assignments) -> None:
         self.stats["rounds"] += 1
@@ -277,6 +309,8 @@ class ClusterSim:
         co.park()
 
     def stop_workers(self) -> None:
+        self.allow_park = False
+        self.parked.clear()
         for w, co in self.cos.items():
             if co.done or not co.started:
                 continue
@@ -317,6 +351,8 @@ class ClusterSim:
                         and tr["src_had"] for tr in self.transfers):
                     self.breach("C02", "input-not-routed", f"task {t} dispatched to {w}: input {ds} is neither on {w.host} nor being transferred there from a host that holds it")
         self.busy[w] = list(ts.tasks)
+        if ts.publish:
+            self.pending_pub[w] = set(ts.publish)
         self.q_exec[w.host].setdefault("ctrl", []).append(ts)
 
     def transmit(self, ds: DatasetId, source: str, target: str) -> None:
@@ -346,7 +382,7 @@ class ClusterSim:
         self._cmd()
         self.stats["purges"] += 1
         self.trace.append(f"PU:{ds}:{host}")
-        pending_consumers = [t for t in self.consumers.get(ds, ()) if t not in self.completed]
+        pending_consumers = [t for t in self.consumers.get(ds, ()) if t not in self.completed and t not in self.outputs_done]
         if pending_consumers:
             self.breach("C04", "purge-before-consumers", f"purge of {ds} at {host} while consumers {sorted(pending_consumers)} have not completed")
         if ds in self.job.ext_outputs and ds not in self.returned_payloads:
@@ -370,7 +406,9 @@ class ClusterSim:
     def _enabled(self) -> list[tuple]:
         steps: list[tuple] = []
         for w in sorted(self.q_worker, key=repr):
-            if self.q_worker[w] and not self.cos[w].done:
+            if w in self.parked:
+                steps.append(("R", w))  # pre-empted in the middle of a task: its socket is not read until the task is over
+            elif self.q_worker[w] and not self.cos[w].done:
                 steps.append(("W", w))
         for h in self.hosts:
             for s in sorted(self.q_exec[h]):
@@ -387,7 +425,14 @@ class ClusterSim:
     def _step(self, st: tuple) -> None:
         self.stats["steps"] += 1
         kind = st[0]
-        if kind == "W":
+        if kind == "R":
+            w = st[1]
+            self.parked.discard(w)
+            self.trace.append(f"R:{w}")
+            self.current_host = w.host
+            self.cos[w].resume()
+            self._check_co(w)
+        elif kind == "W":
             w = st[1]
             m = self.q_worker[w].pop(0)
             if isinstance(m, TaskSequence):
@@ -531,9 +576,10 @@ class ClusterSim:
         return evs
 
 
-def simulate(job, cluster: list[dict], chooser: Chooser, inject_failure_at: int | None = None, slow_data: bool = False, pre=None) -> dict:
+def simulate(job, cluster: list[dict], chooser: Chooser, inject_failure_at: int | None = None, slow_data: bool = False, pre=None,
+             midtask: bool = False) -> dict:
     """Runs the real controller against the simulated cluster. Returns a result dict; never raises for what the code under test does."""
-    sim = ClusterSim(job, cluster, chooser, inject_failure_at, slow_data=slow_data)
+    sim = ClusterSim(job, cluster, chooser, inject_failure_at, slow_data=slow_data, midtask=midtask)
     _CUR["sim"] = sim
     sim.net.on_block = sim._on_block
     res: dict[str, Any] = {"sim": sim, "state": None, "exc": None}
